@@ -312,6 +312,35 @@ def run(M, rec, tier, seed, k, n):
 
     if k == 0 and not child:
         optimised_interpreter(rec, seed)
+        numpy_only_installation(rec, seed)
+
+
+def numpy_only_installation(rec, seed):
+    """A NumPy-only installation (CasADi is an optional dependency): a child process in which `import casadi`
+    fails builds, validates and steps networks with the NumPy engine."""
+    import json
+    import os
+    import subprocess
+    import sys
+
+    from vf.env import SMN_SRC, VERIF_DIR
+
+    try:
+        p = subprocess.run([sys.executable, os.path.join(VERIF_DIR, "vf", "numpy_only_child.py"), str(seed)], cwd=VERIF_DIR,
+                           env=dict(os.environ, SMN_SRC=SMN_SRC, PYTHONHASHSEED="0"), capture_output=True, text=True, timeout=600)
+        res = json.loads(p.stdout.strip().splitlines()[-1])
+    except Exception as e:
+        rec.count("numpy_only_run_failed")
+        rec.seen("numpy_only_run_failed", repr(e)[:150])
+        return
+    rec.count("numpy_only_installation_steps_ok", res.get("steps_ok", 0))
+    rec.count("numpy_only_installation_runs")
+    seen = set()
+    for v in res.get("violations", []):
+        mech = f"{PROP}:{v['what']} [NumPy-only installation: `import casadi` fails]"
+        if mech not in seen:
+            seen.add(mech)
+        rec.violation(mech, v)
 
 
 def optimised_interpreter(rec, seed):
